@@ -94,9 +94,14 @@ func (c *Ctx) Op(line string) string {
 		kind = out[:i]
 		if kind == "err" {
 			kind = out
+			if j := strings.IndexByte(kind, ':'); j > 0 {
+				kind = kind[:j] // invalidDigit:N -> invalidDigit
+			}
 		}
 	}
-	if len(kind) > 24 && !strings.HasPrefix(kind, "err") {
+	switch {
+	case strings.HasPrefix(kind, "err"), kind == "ok", kind == "panic", kind == "bad-op", len(kind) <= 2:
+	default:
 		kind = "value"
 	}
 	c.Dist[op+" -> "+kind]++
